@@ -93,9 +93,9 @@ pub fn gen_case(rng: &mut Rng) -> Case {
     if needs_body(method) || cfg.despite {
         match rng.below(5) {
             0 => cfg.orig.push(("content-length".into(), rng.usize_in(0, 3).to_string().into_bytes())),
-            1 if depth == 0 => cfg.orig.push(("Transfer-Encoding".into(), b"chunked".to_vec())),
+            1 if depth == 0 => cfg.orig.push(("Transfer-Encoding".into(), rng.pick(&[&b"chunked"[..], &b"Chunked"[..], &b"CHUNKED"[..]]).to_vec())),
             2 => cfg.added.push(("Content-Length".into(), rng.usize_in(0, 100_000).to_string().into_bytes())),
-            3 => cfg.added.push(("transfer-encoding".into(), b"chunked".to_vec())),
+            3 => cfg.added.push(("transfer-encoding".into(), rng.pick(&[&b"chunked"[..], &b"chUnked"[..]]).to_vec())),
             _ => {}
         }
         if !body_follows {
